@@ -5,8 +5,11 @@ let show_split = function
   | None -> "PANIC"
   | Some (fs, ok) -> b01 ok ^ " " ^ hexs fs
 
+(* '_' is accepted as a field separator of an input (see shelltrace) *)
+let unus inp = String.map (fun c -> if c = '_' then ' ' else c) inp
+
 let eval inp =
-  match words inp with
+  match words (unus inp) with
   | ["S"; s] -> show_split (M.split (unhex s))
   | ["Q"; s] -> hex (M.quote (unhex s))
   | ["J"; ss] -> hex (M.join (unhexs ss))
@@ -48,7 +51,9 @@ let explain_session s rest out =
         end else begin
           match String.split_on_char ':' (String.sub o 1 (String.length o - 1)) with
           | [ok; t; c] ->
-            if seen_rest then (if ok = "1" then Some "Next true after Rest" else go (i+1) fs outs' seen_rest ended)
+            if seen_rest then (if ok = "1" then Some "Next true after Rest"
+                               else if t <> "-" || c <> "0" then Some "Text/Complete not cleared by Rest"
+                               else go (i+1) fs outs' seen_rest ended)
             else if ended then (if ok = "1" then Some "Next true after end of input" else go (i+1) fs outs' seen_rest ended)
             else (match fs with
               | f :: fs' ->
@@ -65,7 +70,7 @@ let explain_session s rest out =
     go 0 fs outs false false
 
 let spec prop inp out =
-  match prop, words inp with
+  match prop, words (unus inp) with
   | "C16", ["S"; s] ->
     let (fs, ok) = M.ref_split (unhex s) in
     if out = b01 ok ^ " " ^ hexs fs then None
